@@ -72,6 +72,13 @@ class SPVStr:
     fields: frozenset
     z: bool
     layout_iso: bool  # the literal layout is one fromisoformat() accepts (after rstrip Z)
+    fmt: str = CANONICAL_FORMAT
+
+
+@dataclass
+class SText:
+    """text assembled by the code itself: list of ("lit", str) | ("int", SInt, width, zero_pad)"""
+    parts: list
 
 
 @dataclass
@@ -179,6 +186,13 @@ class Interp:
                 continue  # docstring
             if isinstance(st, ast.Assign) and len(st.targets) == 1 and isinstance(st.targets[0], ast.Name):
                 env[st.targets[0].id] = self.ev(st.value, env)
+            elif (isinstance(st, ast.Assign) and len(st.targets) == 1 and isinstance(st.targets[0], ast.Tuple)
+                  and all(isinstance(e, ast.Name) for e in st.targets[0].elts)):
+                val = self.ev(st.value, env)
+                if not isinstance(val, tuple) or len(val) != len(st.targets[0].elts):
+                    raise NotEncodable("tuple assignment of a non-tuple")
+                for e, v in zip(st.targets[0].elts, val):
+                    env[e.id] = v  # type: ignore[attr-defined]
             elif isinstance(st, ast.AnnAssign) and isinstance(st.target, ast.Name) and st.value is not None:
                 env[st.target.id] = self.ev(st.value, env)
             elif isinstance(st, ast.Return) and st.value is not None:
@@ -198,7 +212,7 @@ class Interp:
                 return env[n.id]
             if n.id in self.globals:
                 return self.globals[n.id]
-            if n.id in ("int", "round", "float"):
+            if n.id in ("int", "round", "float", "divmod", "str"):
                 return Marker("builtin." + n.id)
             if n.id in self.funcs:
                 return Marker("func." + n.id)
@@ -206,6 +220,33 @@ class Interp:
         if isinstance(n, ast.Attribute):
             base = self.ev(n.value, env)
             return self.attr(base, n.attr)
+        if isinstance(n, ast.JoinedStr):
+            parts: list = []
+            for part in n.values:
+                if isinstance(part, ast.Constant) and isinstance(part.value, str):
+                    parts.append(("lit", part.value))
+                elif isinstance(part, ast.FormattedValue) and part.conversion == -1:
+                    v = self.ev(part.value, env)
+                    spec = ""
+                    if part.format_spec is not None:
+                        fs = part.format_spec
+                        if not (isinstance(fs, ast.JoinedStr) and all(isinstance(x, ast.Constant) for x in fs.values)):
+                            raise NotEncodable("computed format spec")
+                        spec = "".join(x.value for x in fs.values)  # type: ignore[attr-defined]
+                    if isinstance(v, (str, int)) and not spec:
+                        parts.append(("lit", str(v)))
+                    elif isinstance(v, SInt):
+                        mm = re.fullmatch(r"(0?)(\d*)d?", spec)
+                        if not mm:
+                            raise NotEncodable(f"format spec {spec!r}")
+                        parts.append(("int", v, int(mm.group(2) or 0), bool(mm.group(1))))
+                    elif isinstance(v, (SPVStr, SText)) and not spec:
+                        parts.append(("val", v))
+                    else:
+                        raise NotEncodable(f"f-string part of type {type(v).__name__} with spec {spec!r}")
+                else:
+                    raise NotEncodable("f-string conversion")
+            return self.concat([SText([p]) if p[0] != "val" else p[1] for p in parts])
         if isinstance(n, ast.UnaryOp) and isinstance(n.op, ast.USub):
             v = self.ev(n.operand, env)
             if isinstance(v, (int, float)):
@@ -266,6 +307,8 @@ class Interp:
             if isinstance(op, ast.FloorDiv): return a // b
             if isinstance(op, ast.Pow): return a ** b
             if isinstance(op, ast.Mod): return a % b
+        if isinstance(op, ast.Add) and isinstance(a, (SPVStr, SText, str)) and isinstance(b, (SPVStr, SText, str)):
+            return self.concat([SText([("lit", x)]) if isinstance(x, str) else x for x in (a, b)])
         # datetime / timedelta algebra
         if isinstance(a, SDateTime) and isinstance(b, SDateTime) and isinstance(op, ast.Sub):
             if a.aware != b.aware:
@@ -291,6 +334,42 @@ class Interp:
             fa, fb = self.to_float(a), self.to_float(b)
             return self.float_binop(op, fa, fb)
         raise NotEncodable(f"operator {type(op).__name__} on {type(a).__name__}, {type(b).__name__}")
+
+    def concat(self, items: list[Any]) -> Any:
+        """Concatenation of text values.  Recognised shape: strftime('%Y-%m-%dT%H:%M:%S') + '.' + <int:06d> [+ 'Z'], which
+        renders a timestamp whose fraction digits come from an integer the code computed itself."""
+        flat: list = []
+        for it in items:
+            if isinstance(it, SText):
+                flat += it.parts
+            elif isinstance(it, SPVStr):
+                flat.append(("pv", it))
+            else:
+                raise NotEncodable("concatenation of this value")
+        merged: list = []
+        for p in flat:   # merge adjacent literals
+            if p[0] == "lit" and merged and merged[-1][0] == "lit":
+                merged[-1] = ("lit", merged[-1][1] + p[1])
+            elif not (p[0] == "lit" and p[1] == ""):
+                merged.append(p)
+        if len(merged) == 1 and merged[0][0] == "pv":
+            return merged[0][1]
+        if all(p[0] != "pv" for p in merged):
+            return SText(merged)
+        if (len(merged) in (3, 4) and merged[0][0] == "pv" and merged[0][1].fmt == "%Y-%m-%dT%H:%M:%S"
+                and merged[1] == ("lit", ".") and merged[2][0] == "int"
+                and (len(merged) == 3 or merged[3] == ("lit", "Z"))):
+            pv, (_k, frac, width, zero) = merged[0][1], merged[2]
+            cases = []
+            for g1, t1, lo1, hi1 in pv.us.cases:
+                for g2, f, _lo2, _hi2 in frac.cases:
+                    g = z3.And(g1, g2)
+                    # exactly `width` digits are printed iff 0 <= f < 10**width (zero padded); otherwise the text is malformed
+                    wf = z3.And(f >= 0, f < 10 ** 6) if (width == 6 and zero) else z3.BoolVal(False)
+                    cases.append((z3.And(g, wf), (t1 / 10**6) * 10**6 + f, lo1, hi1 + 10**6))
+                    cases.append((z3.And(g, z3.Not(wf)), z3.IntVal(-1), -1, -1))   # malformed text denotes no instant
+            return SPVStr(SInt(cases), FULL_FIELDS, len(merged) == 4, True, CANONICAL_FORMAT)
+        raise NotEncodable("text layout assembled by the code is not a recognised timestamp layout")
 
     def int_binop(self, op: ast.operator, a: Any, b: Any) -> SInt:
         def lift(v: Any) -> SInt:
@@ -367,6 +446,10 @@ class Interp:
                 if isinstance(v, SFloat): return SInt(fp.round_half_even(self.ctx, v.cases))
             if nm == "builtin.float" and len(args) == 1:
                 return self.to_float(args[0])
+            if nm == "builtin.divmod" and len(args) == 2 and isinstance(args[0], (SInt, int)) and isinstance(args[1], int):
+                return (self.int_binop(ast.FloorDiv(), args[0], args[1]), self.int_binop(ast.Mod(), args[0], args[1]))
+            if nm == "builtin.str" and len(args) == 1 and isinstance(args[0], SInt):
+                return SText([("int", args[0], 0, False)])
             if nm == "datetime.datetime.fromtimestamp":
                 tz = kw.get("tz", args[1] if len(args) > 1 else None)
                 inst = self.fromtimestamp(self.to_float(args[0]))
@@ -418,7 +501,7 @@ class Interp:
             if isinstance(o, SDateTime):
                 if nm == "strftime" and len(args) == 1 and isinstance(args[0], str):
                     fields, z, iso = parse_strftime(args[0])
-                    return SPVStr(o.us, fields, z, iso)
+                    return SPVStr(o.us, fields, z, iso, args[0])
                 if nm == "replace" and set(kw) == {"tzinfo"} and not args:
                     tz = kw["tzinfo"]
                     if isinstance(tz, Marker) and tz.name == "datetime.UTC":
